@@ -118,9 +118,15 @@ func streamAl(o opts) {
 			script = append(script[:at], append([]act{{kind: 2}}, script[at:]...)...)
 		}
 		for i, nw := 0, 1+r.Intn(3); i < nw; i++ {
-			script = append(script, act{kind: 3, b1: int64(r.Intn(200)), b2: int64(r.Intn(200)), b3: int64(r.Intn(200))})
+			wa := act{kind: 3, b1: int64(r.Intn(200)), b2: int64(r.Intn(200)), b3: int64(r.Intn(200))}
+			if r.Intn(2) == 0 {
+				wa.v1, wa.v2 = int64(1+r.Intn(3)), int64(200+r.Intn(50)) // position+1 and new byte of an immediate scratch reuse
+			}
+			script = append(script, wa)
 		}
 		path := fmt.Sprintf("/p%d", t)
+		var wantBody []byte
+		scratchReused := false
 		missRec := &alRec{h: http.Header{}}
 		advMap = append(advMap, missRec.h)
 		handler := http.HandlerFunc(func(rw http.ResponseWriter, req *http.Request) {
@@ -137,8 +143,15 @@ func streamAl(o opts) {
 				case 3:
 					data := []byte{byte(a.b1), byte(a.b2), byte(a.b3)}
 					rw.Write(data)
+					wantBody = append(wantBody, data...)
 					advArr = append([]any{data}, advArr...)
 					emit(ints(3, a.b1, a.b2, a.b3), ints(0))
+					if a.v1 != 0 {
+						// the handler reuses its scratch slice right away (as io.Copy does between two Writes)
+						data[a.v1-1] = byte(a.v2)
+						emit(ints(5, 0, a.v1-1, a.v2), ints(0))
+						scratchReused = true
+					}
 				}
 			}
 		})
@@ -262,6 +275,9 @@ func streamAl(o opts) {
 				sig := fmt.Sprint(*obs)
 				obs.I(-3, s1, s2, s3)
 				emit(ints(8), obs)
+				if string(rec.body) != string(wantBody) {
+					m.violate("C14", fmt.Sprintf("al trace %d: the hit's body %v is not the bytes the handler passed to Write, %v (the handler reused its scratch slice between Writes: %v): script %v", t, rec.body, wantBody, scratchReused, log), fmt.Sprint(t))
+				}
 				if rec.h.Get("X-Cache") != "HIT" {
 					m.violate("C14", fmt.Sprintf("al trace %d: a repeated request was not served as a HIT (X-Cache=%q) after %v", t, rec.h.Get("X-Cache"), log), fmt.Sprint(t))
 				}
